@@ -8,7 +8,7 @@ MISMATCHES = "mismatches_C14"
 VIOLATIONS = "violations_C14"
 KNOWN = None
 SHARD = 40
-RULE = ("top-level user files whose names are proper substrings of the job's own file names (state, json, signac, point.json, document ...) x document strategy incl. DocSync.COPY; permission bits other than the umask default on counterpart / one-sided / nested files and in cloned jobs x preserve_permissions / preserve_times x collect_stats (bits observed before and after, next to the trees); names of filecmp.DEFAULT_IGNORES on both sides with equal size and mtime but different content; file / directory clashes at the top level and nested, user files named like the state point / document in sub-directories, a caller-owned exclude list reused across two calls, deep syncs after an earlier deep comparison of the same paths followed by a same-size same-mtime change (filecmp cache not cleared by the harness); key strategy callbacks that raise KeyboardInterrupt / SystemExit after earlier keys were merged; conflict-oriented seeded random pairs of the C13 universe (half of the shared files differ: same size / different size, "
+RULE = ("Job.sync / sync_jobs between jobs whose state points differ x document strategy (all DocSync.COPY combinations in quick) x file strategy incl. custom strategies that accept the state point file and update with a newer source state point x destination initialised or not; top-level user files whose names are proper substrings of the job's own file names (state, json, signac, point.json, document ...) x document strategy incl. DocSync.COPY; permission bits other than the umask default on counterpart / one-sided / nested files and in cloned jobs x preserve_permissions / preserve_times x collect_stats (bits observed before and after, next to the trees); names of filecmp.DEFAULT_IGNORES on both sides with equal size and mtime but different content; file / directory clashes at the top level and nested, user files named like the state point / document in sub-directories, a caller-owned exclude list reused across two calls, deep syncs after an earlier deep comparison of the same paths followed by a same-size same-mtime change (filecmp cache not cleared by the harness); key strategy callbacks that raise KeyboardInterrupt / SystemExit after earlier keys were merged; conflict-oriented seeded random pairs of the C13 universe (half of the shared files differ: same size / different size, "
         "older / equal / newer mtime, top level and nested; half of the shared document keys differ: flat, nested, mixed-type) x "
         "all strategies and key strategies (None, predicate, regex) x job-level and project-level entry points; plus two bounded-"
         "exhaustive cores: one shared file (3 content relations x 4 mtime relations x 6 strategies x 2 depths x recursive x entry) "
@@ -37,7 +37,7 @@ def gen_inputs(tier, rng):
     if tier == "quick":
         files, docs = rng.sample(files, 140), rng.sample(docs, 140)
         nested, backup = rng.sample(nested, 100), rng.sample(backup, 80)
-    return descs + files + docs + nested + backup + _excl(tier, rng) + _round3(tier, rng) + _round4(tier, rng) + _round6(tier, rng) + _round7(tier, rng) + sync_gen.core_reuse_cases()
+    return descs + files + docs + nested + backup + _excl(tier, rng) + _round3(tier, rng) + _round4(tier, rng) + _round6(tier, rng) + _round7(tier, rng) + _round8(tier, rng) + sync_gen.core_reuse_cases()
 
 def _round3(tier, rng):
     cases = sync_gen.core_fault_cases()
@@ -48,6 +48,15 @@ def _round3(tier, rng):
 def _round4(tier, rng):
     cases = sync_gen.core_clash_cases() + sync_gen.core_deep_history_cases()
     return cases if tier != "quick" else rng.sample(cases, 130)
+
+
+def _round8(tier, rng):
+    cross = sync_gen.core_cross_cases((False,))
+    if tier == "quick":
+        copy = [c for c in cross if c["opts"]["doc_sync"] == "copy"]
+        other = [c for c in cross if c["opts"]["doc_sync"] != "copy"]
+        cross = rng.sample(copy, 16) + rng.sample(other, 20)
+    return cross
 
 
 def _round7(tier, rng):
